@@ -235,13 +235,24 @@ impl<'a> SendLastStateProofProcess<'a> {
                         };
                         // last_headers from previous prove state are empty
                         // iff the chain only has 1 block after MMR enabled.
+                        // The new last headers may overlap the old ones, since the start of the
+                        // request could be moved to an earlier header.
+                        let old_last_headers = old_last_headers
+                            .iter()
+                            .filter(|old_header| {
+                                new_last_headers
+                                    .first()
+                                    .map(|new_header| old_header.number() < new_header.number())
+                                    .unwrap_or(true)
+                            })
+                            .collect::<Vec<_>>();
                         if old_last_headers.is_empty() {
                             new_last_headers
                         } else {
                             let required_count = last_n_blocks - last_n_count;
                             let old_last_headers_len = old_last_headers.len();
                             old_last_headers
-                                .iter()
+                                .into_iter()
                                 .skip(old_last_headers_len.saturating_sub(required_count))
                                 .map(ToOwned::to_owned)
                                 .chain(new_last_headers)
